@@ -182,6 +182,20 @@ def run_rule(rep, fx, rid):
                         if divs and rems and all(lin(_uncast(d[2])) == lin(idx) for d in divs) and all(lin(_uncast(r[2])) == lin(idx) for r in rems):
                             tested = True
                     if not tested:
+                        # the other way to find a member: i = w*32 + leading_zeros(r) with r = bitmap[w] & (any mask) known to be non-zero on the path. The first set bit
+                        # of r, counted from the most significant end (the RTPS numbering), is a set bit of bitmap[w]: masking only clears bits
+                        parts = [idx[2], idx[3]] if idx[0] == 'bin' and idx[1] in ('Add', 'AddUnchecked') else []
+                        lz = [x for x in parts if x[0] == 'call' and x[1].endswith('leading_zeros')]
+                        mul = [x for x in parts if x[0] == 'bin' and x[1] in ('Mul', 'MulUnchecked') and ('c', 32) in (x[2], x[3])]
+                        if lz and mul:
+                            w = [x for x in (mul[0][2], mul[0][3]) if x != ('c', 32)][0]
+                            r = lz[0][2][0]
+                            nonzero = any(((g[0] == 'Ne' and g[3] is True) or (g[0] == 'Eq' and g[3] is False)) and ('c', 0) in (g[1], g[2]) and r in (g[1], g[2]) for g in s.guards)
+                            words = term_find(r, lambda t: t[0] == 'call' and t[1].endswith('::index') and any(_uncast(a) == w for a in t[2] if isinstance(a, tuple)))
+                            from_bitmap = bool(term_find(r, lambda t: t == ('f', 'bitmap')))
+                            if r[0] == 'bin' and r[1] == 'BitAnd' and nonzero and words and from_bitmap:
+                                tested = True
+                    if not tested:
                         bad = 'the path %s yields index %s without having found bit (i/32, 31 - i%%32) of the bitmap set for that very i' % (list(path), str(idx)[:80])
                         break
                 if bad:
@@ -191,7 +205,7 @@ def run_rule(rep, fx, rid):
                       b.where(bb, si))
     rep.floor(rid, n_somes, 2, 'Some(..) results of NumberSetIter::next/next_back')
     # (mask) one bit-addressing formula at every site that touches a bit: mask = 1 << (31 - i % 32), the RTPS numbering (most significant bit first)
-    from rdv.core import Origins, term_str
+    from rdv.core import Origins, term_str, callee_res
     n_mask = 0
     for b in fx.bodies:
         if 'structure::sequence_number::NumberSet' not in b.key or b.j.get('test'):
@@ -210,7 +224,20 @@ def run_rule(rep, fx, rid):
                 rep.check(ok, rid, '%s/mask#%d' % (b.key.rsplit('::', 1)[-1], n_mask), 'mask = 1 << (31 - i % 32)',
                           '%s addresses a bit with %s instead of 1 << (31 - i %% 32): the sites that set, test and serialise members no longer agree on which bit a member is'
                           % (b.key.rsplit('::', 1)[-1], term_str(v)[:80]), b.where(bb, si))
-    rep.floor(rid, n_mask, 3, 'bit masks in NumberSet (insert, next, next_back)')
+            # the word-at-a-time form addresses bits through leading_zeros of bitmap[w] & (u32::MAX >> (i % 32)): most significant bit first as well
+            if st['s'] == 'assign' and st['rv']['r'] == 'bin' and st['rv']['op'] in ('Shr', 'ShrUnchecked'):
+                og = og or Origins(b, summaries=False)
+                v = og._rvalue(st['rv'], bb, si, 0)
+                ones, sh = v[2], v[3]
+                while sh[0] == 'field' and sh[1] == '0':
+                    sh = sh[2]
+                if ones[0] == 'const' and str(ones[-1]).endswith('::MAX') and any(callee_res(t_).endswith('leading_zeros') for _, t_ in b.calls()):
+                    n_mask += 1
+                    ok = sh[0] == 'bin' and sh[1] == 'Rem' and sh[3] == ('const', 'int', 32)
+                    rep.check(ok, rid, '%s/mask#%d' % (b.key.rsplit('::', 1)[-1], n_mask), 'remaining bits = word & (MAX >> (i % 32)), first member by leading_zeros',
+                              '%s masks the word with %s before leading_zeros instead of MAX >> (i %% 32): members before the position are found again or members after it are skipped'
+                              % (b.key.rsplit('::', 1)[-1], term_str(v)[:80]), b.where(bb, si))
+    rep.floor(rid, n_mask, 3, 'bit-addressing sites in NumberSet (insert, next, next_back)')
 
 
 def _uncast(t):
